@@ -68,6 +68,9 @@ class DeviceModel(Listener):
 
     def _new_session(self, conn: TcpConn) -> bytes:
         self.logins += 1
+        planned = self.cfg.get("sessions")
+        if planned and self.logins <= len(planned):
+            return bytes.fromhex(planned[self.logins - 1])      # explicit (special-valued) sessions from the scenario
         h = hashlib.sha256(b"%d/%d/%d" % (self.salt, conn.cid, self.logins)).digest()
         s = h[:4]
         if s == b"\x00\x00\x00\x00":
